@@ -403,7 +403,37 @@ def r206(ctx, R):
         R.ob('R20.6', '%s:one-element-per-request' % f.qbase.split(':')[1],
              ok, 'the serialiser appends exactly one element for every '
              'allocation request it is given', why, func=f)
-    # and the handler hands it the limited list unchanged
+    # and the handler hands it the limited list unchanged: the serialisers
+    # are given <candidates>.allocation_requests of the object that
+    # get_by_requests returned, nothing in between filters or rebuilds it
+    import re
+    sers = {HC + ':_transform_allocation_requests_dict',
+            HC + ':_transform_allocation_requests_list'}
+    for h in prog.funcs:
+        if h.module.name != HC:
+            continue
+        for s_ in ctx.cg.calls_in(h):
+            if not any(c.qbase in sers for c in s_.callees):
+                continue
+            a0 = s_.node.args[0] if s_.node.args else None
+            cn = C.canon(h, a0) if a0 is not None else None
+            ok = bool(cn and re.match(r'^arg\d+\.allocation_requests$', cn))
+            src_ok = False
+            if ok:
+                # ... and that parameter is bound to get_by_requests(...)
+                i = int(re.match(r'^arg(\d+)', cn).group(1))
+                src_ok = True
+                for g_ in prog.funcs:
+                    for s2 in ctx.cg.calls_in(g_):
+                        if h in s2.callees and i < len(s2.node.args):
+                            c2 = C.canon(g_, s2.node.args[i])
+                            if not c2.startswith('get_by_requests('):
+                                src_ok = False
+            R.ob('R20.6', '%s:serialises-the-limited-list' % h.qbase.split(
+                ':')[1], ok and src_ok,
+                'the serialiser is handed the allocation_requests of the '
+                'object get_by_requests returned, unchanged', cn, func=h,
+                node=s_.node)
     R.count('R20.6', n, 2)
 
 
